@@ -1,6 +1,8 @@
 pub mod sha256;
 pub mod enc;
+pub mod sighash;
 
 pub fn self_test() -> Result<(), String> {
+    sighash::self_test()?;
     Ok(())
 }
